@@ -3,5 +3,5 @@
 set -euo pipefail
 cd "$(dirname "$0")/.."
 . bin/env.sh
-bin/build.sh sched
+bin/build.sh sched su
 echo "setup ok"
